@@ -549,7 +549,7 @@ def evaluate(src, env):
         raise KeyError("no value for %s" % sorted(missing))
     with np.errstate(all="ignore"):
         r = _ev(v.tree, env)
-    shape = np.broadcast(r.v, r.ok, *[np.asarray(env[k]) for k in v.names]).shape
+    shape = np.broadcast_shapes(np.shape(r.v), np.shape(r.ok), *[np.shape(env[k]) for k in v.names])  # (np.broadcast takes at most 32 operands)
     return np.broadcast_to(r.v, shape), np.broadcast_to(r.ok, shape), np.broadcast_to(r.err, shape), r.is_bool
 
 
